@@ -252,7 +252,10 @@ def run(repo: Repo) -> Result:
 
     # ---- C14-UNDEF -----------------------------------------------------------------
     for m, want_classes in (("get", {"KeyError", "TypeError", "IndexError"}), ("get_async", {"KeyError", "TypeError", "IndexError"}), ("_resolve", {"KeyError"})):
-        f = repo.own_method(CTX, m)
+        from ..normalize import nfunc
+
+        # helpers that build the undefined value (`_undefined_root(...)`) are inlined
+        f = nfunc(repo, repo.own_method(CTX, m), keep=("_resolve",), aliases=False)
         # every subscript of self.scope and every get_item call must sit in a try catching the classes
         sites = []
         for n in walk_no_nested(f.node):
